@@ -840,4 +840,6 @@ def run(rep):
                         'the base geometry x0 returned by nutils.mesh (piecewise affine) is trusted to identify points; a wrong x0 is reported as mesh-binding / x0 violation',
                         'fields on the boundary topology are p(G(a_e + A_e eta)) with eta = boundary.f_coords, e = boundary.f_index and the affine facet maps (a_e, A_e) fitted to x0 '
                         '(plus an L2 projection on boundary.basis(std, 2) of simplex meshes where it is exact); only the tangential components of their gradient are compared '
-                        '(the normal component of the gradient of a function that is defined on the surface only is not defined by the property)']
+                        '(the normal component of the gradient of a function that is defined on the surface only is not defined by the property)',
+                        'on refined meshes (level L >= 1, one space) the geometry map is additionally represented in the std degree 2 basis of the topology of level L - 1 '
+                        '(L2 projection, exact for the maps of degree <= 2) and J / grad / normal / the volume are compared with the same model values (independence of refinement)']
